@@ -16,6 +16,9 @@ type opGen struct {
 	// misuseBudget: number of misuse ops (`set j (l )`) the current history may still contain; set per
 	// history so that at most ~1% of the histories are misuse histories.
 	misuseBudget int
+	// getters: per message index, per field index the generated Get<GoName> method ("" = none known); nil = the
+	// `getter` op is never generated (library pass).
+	getters [][]string
 }
 
 const maxBlobInOp = 96
@@ -300,11 +303,29 @@ pathLoop:
 	}
 	_ = hasKey
 	for {
-		c := r.Intn(1000)
+		c := r.Intn(1065)
 		if g.misuseBudget > 0 && r.Chance(10) {
 			c = 520
 		}
 		switch {
+		// ---------------- the generated plain-Go accessor (about 6%); like every read it is also addressed through
+		// in/at/mv paths, so it runs on nested messages and on nil receivers (unpopulated message fields)
+		case c >= 1000:
+			if nf == 0 || g.getters == nil || mi >= len(g.getters) {
+				continue
+			}
+			j := pickAny()
+			if c >= 1040 {
+				// composite fields: message pointers, slices, maps
+				if len(comps) == 0 {
+					continue
+				}
+				j = pick(r, comps)
+			}
+			if j >= len(g.getters[mi]) || g.getters[mi][j] == "" {
+				continue
+			}
+			op.name, op.j = "getter", j
 		// ---------------- reads (about 38%)
 		case c < 50:
 			if nf == 0 {
